@@ -1,4 +1,1346 @@
-//! c20 check (under construction)
+//! C20 — waiting senders always wake; dropping the manager stops its workers.
+//!
+//! Engine E3: stateless, preemption-bounded, exhaustive exploration of the schedules of the REAL
+//! `MultiPathManager` (its `path()` / `cached_path()` / `stop_managing_paths()` / drop and the worker
+//! task it spawns itself) under a deterministic executor that owns every scheduling decision:
+//!
+//! * a paused-time current-thread tokio runtime whose `block_on` future IS the explorer;
+//! * harness futures are polled manually with own wakers; the worker (spawned by the subject with
+//!   `tokio::spawn`) only runs when the explorer yields to the runtime and stops at the next
+//!   `verif::yield_point` gate or real await;
+//! * the `PathFetcher` is gated: its future stays pending until the explorer completes it;
+//! * time moves only through `tokio::time::advance`.
+//!
+//! A schedule is a sequence of choices among the enabled actions (canonical order: the task that ran
+//! last first, then harness tasks, workers, fetch completions, timer advance - ascending ids).
+//! Switching away from a task that is still runnable costs one preemption. All schedules with
+//! 0, 1, 2, .. preemptions are executed, each to quiescence. Exploration is sharded over single
+//! threaded PROCESSES (the yield controller is a process global and `scc`/`sdd` keep per-thread and
+//! global epoch state, so one process = one explorer thread).
+
+use std::{
+    cell::RefCell,
+    collections::{BTreeMap, BTreeSet},
+    future::Future,
+    pin::Pin,
+    rc::Rc,
+    sync::{
+        Arc, Mutex,
+        atomic::{AtomicBool, Ordering},
+    },
+    task::{Context, Poll, Wake, Waker},
+    time::{Duration, Instant, SystemTime},
+};
+
+use scion_sdk_utils::backoff::BackoffConfig;
+use scion_stack::{
+    path::{
+        PathStrategy,
+        fetcher::traits::{PathFetchError, PathFetcher},
+        manager::{MultiPathManager, MultiPathManagerConfig, MultiPathManagerRef, verif_sched_api::HandleProbe},
+    },
+    verif::{self, YieldController},
+};
+use sciparse::{
+    core::model::Model,
+    dataplane_path::{
+        standard::{
+            model::{HopField, InfoField, Segment, StandardPath},
+            types::{HopFieldFlags, HopFieldMac, InfoFieldFlags},
+        },
+        view::ScionDpPathView,
+    },
+    identifier::isd_asn::IsdAsn,
+    path::{ScionPath, fingerprint::data_plane::DpPathFingerprint},
+};
+use vpc::{Value, json};
+
+// =============================================================================================
+// Controller: yield-point gates + fetch gate
+// =============================================================================================
+
+#[derive(Clone, Copy, PartialEq, Eq, PartialOrd, Ord, Debug)]
+enum Tid {
+    H(u8),
+    W(u8),
+}
+impl Tid {
+    fn name(self) -> String {
+        match self {
+            Tid::H(i) => format!("H{i}"),
+            Tid::W(i) => format!("W{i}"),
+        }
+    }
+}
+
+struct Parked {
+    label: &'static str,
+    waker: Waker,
+}
+
+enum FState {
+    Waiting(Waker),
+    Delivered(u8),
+    Done,
+    Dropped,
+}
+struct FetchRec {
+    worker: u8,
+    state: FState,
+}
+
+#[derive(Default)]
+struct CtlInner {
+    /// harness task currently polled by the explorer (None while the runtime runs workers)
+    current: Option<u8>,
+    parked: BTreeMap<Tid, Parked>,
+    released: BTreeSet<Tid>,
+    /// tokio task id -> worker index by first appearance
+    workers: Vec<String>,
+    fetches: Vec<FetchRec>,
+    inflight: usize,
+    max_inflight: usize,
+    /// activity counter (every controller call)
+    polls: u64,
+    last_label: BTreeMap<Tid, &'static str>,
+}
+impl CtlInner {
+    fn tid(&mut self) -> Tid {
+        if let Some(h) = self.current {
+            return Tid::H(h);
+        }
+        let s = tokio::task::try_id().map(|i| i.to_string()).unwrap_or_else(|| "?".into());
+        let idx = match self.workers.iter().position(|w| *w == s) {
+            Some(i) => i,
+            None => {
+                self.workers.push(s);
+                self.workers.len() - 1
+            }
+        };
+        Tid::W(idx as u8)
+    }
+}
+
+#[derive(Default)]
+struct Ctl(Mutex<CtlInner>);
+
+impl YieldController for Ctl {
+    fn poll_point(&self, label: &'static str, token: &mut u64, cx: &mut Context<'_>) -> Poll<()> {
+        let mut g = self.0.lock().unwrap();
+        g.polls += 1;
+        let id = g.tid();
+        if *token == 0 {
+            *token = 1;
+            g.last_label.insert(id, label);
+            g.parked.insert(id, Parked { label, waker: cx.waker().clone() });
+            return Poll::Pending;
+        }
+        if g.released.remove(&id) {
+            g.parked.remove(&id);
+            *token = 2;
+            return Poll::Ready(());
+        }
+        g.parked.insert(id, Parked { label, waker: cx.waker().clone() });
+        Poll::Pending
+    }
+}
+
+const OUT_OK: u8 = 0;
+const OUT_EMPTY: u8 = 1;
+const OUT_ERR: u8 = 2;
+fn out_name(o: u8) -> &'static str {
+    match o {
+        OUT_OK => "ok",
+        OUT_EMPTY => "empty",
+        _ => "err",
+    }
+}
+
+struct GatedFetcher {
+    ctl: Arc<Ctl>,
+    now_s: u32,
+}
+struct FetchFut {
+    ctl: Arc<Ctl>,
+    idx: Option<usize>,
+    src: IsdAsn,
+    dst: IsdAsn,
+    now_s: u32,
+}
+impl Future for FetchFut {
+    type Output = Result<Vec<ScionPath>, PathFetchError>;
+    fn poll(mut self: Pin<&mut Self>, cx: &mut Context<'_>) -> Poll<Self::Output> {
+        let ctl = self.ctl.clone();
+        let mut g = ctl.0.lock().unwrap();
+        g.polls += 1;
+        match self.idx {
+            None => {
+                let worker = match g.tid() {
+                    Tid::W(w) => w,
+                    Tid::H(_) => 255,
+                };
+                g.fetches.push(FetchRec { worker, state: FState::Waiting(cx.waker().clone()) });
+                g.inflight += 1;
+                g.max_inflight = g.max_inflight.max(g.inflight);
+                self.idx = Some(g.fetches.len() - 1);
+                Poll::Pending
+            }
+            Some(i) => match g.fetches[i].state {
+                FState::Delivered(o) => {
+                    g.fetches[i].state = FState::Done;
+                    g.inflight -= 1;
+                    Poll::Ready(match o {
+                        OUT_OK => Ok(vec![mk_path(self.src, self.dst, self.now_s, i)]),
+                        OUT_EMPTY => Ok(vec![]),
+                        _ => Err(PathFetchError::InternalError("scripted".into())),
+                    })
+                }
+                FState::Waiting(_) => {
+                    g.fetches[i].state = FState::Waiting(cx.waker().clone());
+                    Poll::Pending
+                }
+                _ => vpc::machinery_failure("fetch future polled after completion"),
+            },
+        }
+    }
+}
+impl Drop for FetchFut {
+    fn drop(&mut self) {
+        if let Some(i) = self.idx {
+            let mut g = self.ctl.0.lock().unwrap();
+            if matches!(g.fetches[i].state, FState::Waiting(_) | FState::Delivered(_)) {
+                g.fetches[i].state = FState::Dropped;
+                g.inflight -= 1;
+            }
+        }
+    }
+}
+impl PathFetcher for GatedFetcher {
+    fn fetch_paths(&self, src: IsdAsn, dst: IsdAsn) -> impl Future<Output = Result<Vec<ScionPath>, PathFetchError>> + Send + '_ {
+        FetchFut { ctl: self.ctl.clone(), idx: None, src, dst, now_s: self.now_s }
+    }
+}
+
+/// The path returned by lookup number `k` (its interfaces, hence its fingerprint, depend on `k`).
+fn mk_path(src: IsdAsn, dst: IsdAsn, now_s: u32, k: usize) -> ScionPath {
+    let hf = |i: u16, e: u16| HopField { flags: HopFieldFlags::empty(), expiration_units: 255, cons_ingress: i, cons_egress: e, mac: HopFieldMac::zero() };
+    let x = 10 + k as u16;
+    let mut segs = tinyvec::ArrayVec::<[Segment; 3]>::new();
+    segs.push(Segment {
+        info_field: InfoField { flags: InfoFieldFlags::CONS_DIR, segment_id: 1, timestamp: now_s },
+        hop_fields: tinyvec::tiny_vec!([HopField; 12] => hf(0, x), hf(x, 0)),
+    });
+    let sp = StandardPath { current_info_field: 0, current_hop_field: 0, segments: segs };
+    let view = sp.try_encode_to_owned_view().unwrap();
+    ScionPath::new(src, dst, ScionDpPathView::Standard(view), None, None)
+}
+
+struct FlagWaker(AtomicBool);
+impl Wake for FlagWaker {
+    fn wake(self: Arc<Self>) {
+        self.0.store(true, Ordering::SeqCst);
+    }
+}
+
+// =============================================================================================
+// Drivers
+// =============================================================================================
+
+#[derive(Clone, Copy, PartialEq, Eq, Debug)]
+enum Kind {
+    /// `MultiPathManager::path()` caller (what `path_wait` / `send_to` do)
+    Caller,
+    /// `stop_managing_paths`
+    Stopper,
+    /// drops a manager clone (the last one once every other task is done)
+    Dropper,
+    /// n calls of `cached_path`, one scheduling point between two calls
+    Poller(u8),
+    /// obtains the pair's handle, drops its manager clone, then waits on the handle only
+    HandleWaiter,
+}
+
+#[derive(Clone)]
+struct Variant {
+    driver: &'static str,
+    name: String,
+    tasks: Vec<Kind>,
+    /// outcome of lookup k = outcomes[min(k, len-1)]
+    outcomes: Vec<u8>,
+    idle0: bool,
+    backoff0: bool,
+    advances: u8,
+    bound: u8,
+}
+
+fn variants(tier: vpc::Tier) -> Vec<Variant> {
+    use Kind::*;
+    let t = tier == vpc::Tier::Thorough;
+    let mut v = vec![];
+    let mut add = |driver: &'static str, tasks: &[Kind], outs: &[u8], idle0: bool, backoff0: bool, advances: u8, bound: u8| {
+        let name = format!("{driver}/{}", outs.iter().map(|o| out_name(*o)).collect::<Vec<_>>().join("+"));
+        v.push(Variant { driver, name, tasks: tasks.to_vec(), outcomes: outs.to_vec(), idle0, backoff0, advances, bound });
+    };
+    // D1: two path() callers + lookup {Ok, empty, Err}
+    for o in [OUT_OK, OUT_EMPTY, OUT_ERR] {
+        add("D1", &[Caller, Caller, Dropper], &[o], false, false, 1, if t { 3 } else { 1 });
+    }
+    // D2: path() callers + idle exit (max_idle_period = 0)
+    for o in [OUT_OK, OUT_EMPTY, OUT_ERR] {
+        add("D2", &[Caller, Caller, Dropper], &[o], true, false, 0, if t { 2 } else { 1 });
+    }
+    // D3: path() + stop_managing_paths + second path() re-creating the pair
+    for o in [OUT_OK, OUT_EMPTY, OUT_ERR] {
+        if t || o != OUT_EMPTY {
+            add("D3", &[Caller, Stopper, Caller, Dropper], &[o], false, false, 0, if t { 2 } else { 1 });
+        }
+    }
+    // D5: manager dropped while a handle-holding task waits (also in quick: it is the only driver in
+    // which the notification on the worker's exit path is what releases a waiter)
+    for o in [OUT_OK, OUT_ERR] {
+        add("D5", &[HandleWaiter, Dropper], &[o], false, false, 0, if t { 3 } else { 1 });
+    }
+    if t {
+        add("D5c", &[HandleWaiter, Caller, Dropper], &[OUT_OK], false, false, 0, 2);
+        // D4: cached_path pollers + path() caller
+        for o in [OUT_OK, OUT_EMPTY, OUT_ERR] {
+            add("D4", &[Poller(3), Caller, Dropper], &[o], false, false, 0, 2);
+        }
+        add("D4p", &[Poller(2), Poller(2), Dropper], &[OUT_OK], false, false, 0, 3);
+        // D6: refetch (immediate retry after a failed lookup, backoff 0) racing a late caller
+        add("D6", &[Caller, Caller, Dropper], &[OUT_ERR, OUT_OK], false, true, 0, 2);
+        add("D6", &[Caller, Caller, Dropper], &[OUT_EMPTY, OUT_OK], false, true, 0, 2);
+        add("D6", &[Caller, Caller, Dropper], &[OUT_ERR, OUT_EMPTY, OUT_OK], false, true, 0, 2);
+    }
+    v
+}
+
+// =============================================================================================
+// One execution
+// =============================================================================================
+
+#[derive(Clone, Debug, PartialEq, Eq)]
+enum HOut {
+    Path(Result<DpPathFingerprint, String>),
+    Polls(Vec<Option<DpPathFingerprint>>),
+    Handle { path: Option<DpPathFingerprint>, err: Option<String> },
+    Unit,
+}
+type HFut = Pin<Box<dyn Future<Output = HOut>>>;
+
+fn err_class(e: &PathFetchError) -> String {
+    match e {
+        PathFetchError::NoPathsFound => "nopaths".into(),
+        PathFetchError::InternalError(m) if m.as_ref() == "scripted" => "scripted".into(),
+        PathFetchError::InternalError(m) => match m.strip_prefix("PathSet task exited: ") {
+            Some(r) => format!("exited({})", r.split(',').next().unwrap_or(r)),
+            None => format!("internal({m})"),
+        },
+        o => format!("other({o})"),
+    }
+}
+
+#[derive(Clone, Copy, PartialEq, Eq, Debug)]
+enum Act {
+    Step(Tid),
+    Fetch(u8),
+    Advance,
+}
+impl Act {
+    fn name(self) -> String {
+        match self {
+            Act::Step(t) => t.name(),
+            Act::Fetch(i) => format!("F{i}"),
+            Act::Advance => "T".into(),
+        }
+    }
+}
+
+#[derive(Clone, Copy, Debug, PartialEq, Eq)]
+struct Point {
+    n: u8,
+    choice: u8,
+    running_enabled: bool,
+}
+
+/// What the explorer knows about handle/worker k (the k-th entry created for the pair).
+#[derive(Default, Clone)]
+struct WState {
+    last_outcome: Option<u8>,
+    exited: bool,
+    finish_count: u32,
+    prev_ongoing: bool,
+}
+
+#[derive(Clone, Copy, Debug)]
+struct Pre {
+    init: bool,
+    ongoing: bool,
+    exited: bool,
+    last_outcome: Option<u8>,
+    finish_count: u32,
+}
+
+struct HState {
+    kind: Kind,
+    fut: Option<HFut>,
+    waker: Arc<FlagWaker>,
+    result: Option<HOut>,
+    handle: Option<usize>,
+    /// (had to wait, finish_count of its handle) when it evaluated the wait condition
+    wait_decision: Option<(bool, u32)>,
+    final_pre: Option<Pre>,
+    /// Poller: cached_path calls made so far / bit k set = call #k had to return a path
+    polls_made: u32,
+    poll_demand: u32,
+    /// still owns a clone of the manager
+    holds_mgr: bool,
+}
+
+#[derive(Default)]
+struct Exec {
+    points: Vec<Point>,
+    steps: u64,
+    signature: String,
+    violations: Vec<(String, String)>,
+    trace: Vec<String>,
+    preemptions: u32,
+}
+
+type Registry = Rc<RefCell<Vec<HandleProbe>>>;
+fn register(reg: &Registry, h: HandleProbe) -> usize {
+    let mut r = reg.borrow_mut();
+    if let Some(i) = r.iter().position(|x| x.id() == h.id()) {
+        return i;
+    }
+    r.push(h);
+    r.len() - 1
+}
+
+fn execute(v: &Variant, prefix: &[(u8, u8)], want_trace: bool) -> Exec {
+    let rt = tokio::runtime::Builder::new_current_thread()
+        .enable_time()
+        .start_paused(true)
+        .build()
+        .unwrap_or_else(|e| vpc::machinery_failure(&format!("runtime: {e}")));
+    let ex = rt.block_on(explore_one(v, prefix, want_trace));
+    verif::install(None);
+    drop(rt);
+    ex
+}
+
+async fn settle(ctl: &Arc<Ctl>) {
+    let m = tokio::runtime::Handle::current().metrics();
+    loop {
+        let before = (ctl.0.lock().unwrap().polls, m.num_alive_tasks());
+        tokio::task::yield_now().await;
+        let after = (ctl.0.lock().unwrap().polls, m.num_alive_tasks());
+        if before == after {
+            break;
+        }
+    }
+}
+
+async fn explore_one(v: &Variant, prefix: &[(u8, u8)], want_trace: bool) -> Exec {
+    let ctl = Arc::new(Ctl::default());
+    verif::install(Some(ctl.clone()));
+    let metrics = tokio::runtime::Handle::current().metrics();
+    let t_start = tokio::time::Instant::now();
+    let mut advanced = Duration::ZERO;
+
+    let src: IsdAsn = "1-1".parse().unwrap();
+    let dst: IsdAsn = "1-2".parse().unwrap();
+    let now = SystemTime::now();
+    let now_s = now.duration_since(SystemTime::UNIX_EPOCH).unwrap().as_secs() as u32;
+    let fps: Vec<DpPathFingerprint> = (0..8).map(|k| mk_path(src, dst, now_s, k).fingerprint()).collect();
+    let fp_name = |fp: &DpPathFingerprint| match fps.iter().position(|f| f == fp) {
+        Some(k) => format!("path#{k}"),
+        None => "path#?".to_string(),
+    };
+
+    let mut cfg = MultiPathManagerConfig::default();
+    if v.idle0 {
+        cfg = cfg.with_max_idle_period(Duration::ZERO);
+    }
+    if v.backoff0 {
+        cfg = cfg
+            .with_min_refetch_delay(Duration::ZERO)
+            .verif_with_fetch_failure_backoff(BackoffConfig { minimum_delay_secs: 0.0, maximum_delay_secs: 0.0, factor: 1.0, jitter_secs: 0.0 });
+    }
+    let mgr = MultiPathManager::new(cfg, GatedFetcher { ctl: ctl.clone(), now_s }, PathStrategy::default())
+        .unwrap_or_else(|e| vpc::machinery_failure(&format!("config: {e}")));
+    let weak: MultiPathManagerRef<GatedFetcher> = mgr.weak_ref();
+    let reg: Registry = Rc::new(RefCell::new(vec![]));
+    let my_handle: Vec<Rc<RefCell<Option<usize>>>> = v.tasks.iter().map(|_| Rc::new(RefCell::new(None))).collect();
+
+    let mut hs: Vec<HState> = vec![];
+    for (i, kind) in v.tasks.iter().enumerate() {
+        let m = mgr.clone();
+        let fut: HFut = match *kind {
+            Kind::Caller => Box::pin(async move {
+                let r = m.path(src, dst, now).await;
+                let out = match r {
+                    Ok(p) => HOut::Path(Ok(p.fingerprint())),
+                    Err(e) => HOut::Path(Err(err_class(&e))),
+                };
+                drop(m);
+                out
+            }),
+            Kind::Stopper => Box::pin(async move {
+                m.stop_managing_paths(src, dst);
+                drop(m);
+                HOut::Unit
+            }),
+            Kind::Dropper => Box::pin(async move {
+                drop(m);
+                HOut::Unit
+            }),
+            Kind::Poller(n) => Box::pin(async move {
+                let mut seen = vec![];
+                for k in 0..n {
+                    if k > 0 {
+                        verif::yield_point("h.poll").await;
+                    }
+                    seen.push(m.cached_path(src, dst, now).map(|p| p.fingerprint()));
+                }
+                drop(m);
+                HOut::Polls(seen)
+            }),
+            Kind::HandleWaiter => {
+                let reg = reg.clone();
+                let mine = my_handle[i].clone();
+                Box::pin(async move {
+                    let h = m.verif_ensure_handle(src, dst);
+                    *mine.borrow_mut() = Some(register(&reg, h.clone()));
+                    drop(m);
+                    verif::yield_point("h.have_handle").await;
+                    let p = h.active_path().await;
+                    verif::yield_point("h.after_active").await;
+                    let e = h.current_error();
+                    HOut::Handle { path: p.map(|p| p.fingerprint()), err: e.map(|e| err_class(&e)) }
+                })
+            }
+        };
+        hs.push(HState { kind: *kind, fut: Some(fut), waker: Arc::new(FlagWaker(AtomicBool::new(true))), result: None, handle: None, wait_decision: None, final_pre: None, polls_made: 0, poll_demand: 0, holds_mgr: true });
+    }
+    drop(mgr); // the explorer itself never keeps the manager alive
+
+    let mut ex = Exec::default();
+    let mut ws: Vec<WState> = vec![];
+    let mut removals: usize = 0;
+    let mut adv_left = v.advances;
+    let mut last: Option<Tid> = None;
+    let viol = |ex: &mut Exec, class: String, what: String| {
+        if !ex.violations.iter().any(|(c, _)| *c == class) {
+            ex.violations.push((class, what));
+        }
+    };
+    let panic_before = vpc::last_panic_location();
+
+    let peek = |reg: &Registry| -> Option<usize> {
+        let m = weak.upgrade()?;
+        let h = m.verif_peek_handle(src, dst)?;
+        drop(m);
+        Some(register(reg, h))
+    };
+
+    loop {
+        settle(&ctl).await;
+        if tokio::time::Instant::now() != t_start + advanced {
+            vpc::machinery_failure("the paused clock moved without tokio::time::advance (auto-advance)");
+        }
+        // ---- bookkeeping on the state reached -------------------------------------------------
+        {
+            let r = reg.borrow();
+            while ws.len() < r.len() {
+                ws.push(WState::default());
+            }
+            for (k, h) in r.iter().enumerate() {
+                let (_init, ongoing) = h.flags();
+                if ws[k].prev_ongoing && !ongoing {
+                    ws[k].finish_count += 1;
+                }
+                ws[k].prev_ongoing = ongoing;
+            }
+        }
+        let (started, inflight) = {
+            let g = ctl.0.lock().unwrap();
+            (g.workers.len(), g.inflight)
+        };
+        if started > 1 + removals {
+            viol(&mut ex, "second-worker-without-removal".into(), format!("{started} workers were started for one pair but its entry was removed only {removals} time(s)"));
+        }
+        if inflight > 1 + removals {
+            viol(&mut ex, "concurrent-fetches-without-removal".into(), format!("{inflight} lookups in flight for one pair with {removals} removal(s)"));
+        }
+
+        // ---- enabled actions ------------------------------------------------------------------
+        let mut acts: Vec<Act> = vec![];
+        {
+            let g = ctl.0.lock().unwrap();
+            for (i, h) in hs.iter().enumerate() {
+                if h.fut.is_some() && (h.waker.0.load(Ordering::SeqCst) || g.parked.contains_key(&Tid::H(i as u8))) {
+                    // Reduction: dropping a clone while another harness task still owns one is a pure
+                    // reference-count decrement, independent of every other step; the schedule in
+                    // which the last other owner finishes and the dropper runs right after it reaches
+                    // the same state. So the dropper is enabled only once it owns the last clone.
+                    if h.kind == Kind::Dropper && hs.iter().enumerate().any(|(j, o)| j != i && o.holds_mgr) {
+                        continue;
+                    }
+                    acts.push(Act::Step(Tid::H(i as u8)));
+                }
+            }
+            let mut parked_w = 0;
+            for id in g.parked.keys() {
+                if let Tid::W(_) = id {
+                    acts.push(Act::Step(*id));
+                    parked_w += 1;
+                }
+            }
+            let mut waiting_f = 0;
+            for (i, f) in g.fetches.iter().enumerate() {
+                if let FState::Waiting(_) = f.state {
+                    acts.push(Act::Fetch(i as u8));
+                    waiting_f += 1;
+                }
+            }
+            let sleeping = metrics.num_alive_tasks() as i64 - parked_w - waiting_f;
+            if adv_left > 0 && sleeping > 0 {
+                acts.push(Act::Advance);
+            }
+        }
+        if acts.is_empty() {
+            break;
+        }
+        let mut running_enabled = false;
+        if let Some(l) = last {
+            if let Some(pos) = acts.iter().position(|a| *a == Act::Step(l)) {
+                let a = acts.remove(pos);
+                acts.insert(0, a);
+                running_enabled = true;
+            }
+        }
+        let step = ex.points.len();
+        let choice = if step < prefix.len() {
+            let (c, n) = prefix[step];
+            if n as usize != acts.len() || c as usize >= acts.len() {
+                vpc::machinery_failure(&format!(
+                    "replay divergence in {} at step {step}: recorded choice {c} of {n}, now {} enabled {:?}",
+                    v.name,
+                    acts.len(),
+                    acts.iter().map(|a| a.name()).collect::<Vec<_>>()
+                ));
+            }
+            c as usize
+        } else {
+            0
+        };
+        if acts.len() > 250 {
+            vpc::machinery_failure("too many enabled actions");
+        }
+        ex.points.push(Point { n: acts.len() as u8, choice: choice as u8, running_enabled });
+        if choice != 0 && running_enabled {
+            ex.preemptions += 1;
+        }
+        let act = acts[choice];
+        ex.steps += 1;
+        if ex.steps > 3000 {
+            viol(&mut ex, "schedule-does-not-terminate".into(), "more than 3000 scheduling steps".into());
+            break;
+        }
+        let from_label = match act {
+            Act::Step(t) => {
+                let g = ctl.0.lock().unwrap();
+                match g.parked.get(&t) {
+                    Some(p) => p.label,
+                    None if g.last_label.contains_key(&t) => "(woken)",
+                    None => "start",
+                }
+            }
+            _ => "",
+        };
+
+        match act {
+            Act::Step(Tid::H(i)) => {
+                let iu = i as usize;
+                // what this step is about to do, from the gate it is parked at
+                match (hs[iu].kind, from_label) {
+                    (Kind::Stopper, _) => {
+                        if peek(&reg).is_some() {
+                            removals += 1;
+                        }
+                    }
+                    (Kind::Caller | Kind::HandleWaiter, "a.before_wait") => {
+                        if hs[iu].handle.is_none() {
+                            hs[iu].handle = *my_handle[iu].borrow();
+                        }
+                        if let Some(k) = hs[iu].handle {
+                            let (init, ongoing) = reg.borrow()[k].flags();
+                            hs[iu].wait_decision = Some((ongoing || !init, ws.get(k).map(|w| w.finish_count).unwrap_or(0)));
+                        }
+                    }
+                    (Kind::Caller | Kind::HandleWaiter, "a.after_wait") => {
+                        if let Some(k) = hs[iu].handle {
+                            let (init, ongoing) = reg.borrow()[k].flags();
+                            let w = ws.get(k).cloned().unwrap_or_default();
+                            hs[iu].final_pre = Some(Pre { init, ongoing, exited: w.exited, last_outcome: w.last_outcome, finish_count: w.finish_count });
+                        }
+                    }
+                    _ => {}
+                }
+                // cached_path: what must it return?
+                let mut poll_demand = false;
+                if let Kind::Poller(_) = hs[iu].kind {
+                    if let Some(k) = peek(&reg) {
+                        let (init, ongoing) = reg.borrow()[k].flags();
+                        let w = ws.get(k).cloned().unwrap_or_default();
+                        poll_demand = init && !ongoing && !w.exited && w.last_outcome == Some(OUT_OK);
+                    }
+                }
+                {
+                    let mut g = ctl.0.lock().unwrap();
+                    g.current = Some(i);
+                    if g.parked.contains_key(&Tid::H(i)) {
+                        g.released.insert(Tid::H(i));
+                    }
+                }
+                hs[iu].waker.0.store(false, Ordering::SeqCst);
+                let w = Waker::from(hs[iu].waker.clone());
+                let mut cx = Context::from_waker(&w);
+                let fut = hs[iu].fut.as_mut().unwrap();
+                let r = vpc::catch(|| fut.as_mut().poll(&mut cx));
+                {
+                    let mut g = ctl.0.lock().unwrap();
+                    g.current = None;
+                }
+                match r {
+                    Err(msg) => {
+                        viol(&mut ex, format!("panic@{}", vpc::last_panic_location()), format!("harness task H{i} ({:?}) panicked inside the subject: {msg}", hs[iu].kind));
+                        hs[iu].fut = None;
+                        hs[iu].result = Some(HOut::Unit);
+                        hs[iu].holds_mgr = false;
+                        let mut g = ctl.0.lock().unwrap();
+                        g.parked.remove(&Tid::H(i));
+                        g.released.remove(&Tid::H(i));
+                    }
+                    Ok(Poll::Ready(o)) => {
+                        hs[iu].fut = None; // drops the task's manager clone, if it still had one
+                        hs[iu].result = Some(o);
+                        hs[iu].holds_mgr = false;
+                    }
+                    Ok(Poll::Pending) => {
+                        if hs[iu].kind == Kind::HandleWaiter {
+                            hs[iu].holds_mgr = false; // dropped right after ensure, in its first step
+                        }
+                    }
+                }
+                // which handle does this task hold now?
+                match hs[iu].kind {
+                    Kind::Caller if from_label == "p.before_ensure" => {
+                        hs[iu].handle = peek(&reg);
+                        if hs[iu].handle.is_none() {
+                            vpc::machinery_failure("caller passed ensure_managed_paths but the pair has no entry");
+                        }
+                    }
+                    Kind::Poller(_) => {
+                        let _ = peek(&reg);
+                    }
+                    Kind::HandleWaiter => hs[iu].handle = *my_handle[iu].borrow(),
+                    _ => {}
+                }
+                if let Kind::Poller(_) = hs[iu].kind {
+                    // exactly one cached_path call is made per step of a poller
+                    if poll_demand {
+                        hs[iu].poll_demand |= 1 << hs[iu].polls_made;
+                    }
+                    hs[iu].polls_made += 1;
+                }
+                last = Some(Tid::H(i));
+            }
+            Act::Step(Tid::W(k)) => {
+                let ku = k as usize;
+                if from_label == "w.exit.decided" && peek(&reg).is_some() {
+                    removals += 1; // its stop_managing_paths(src, dst) removes whatever entry is there
+                }
+                if from_label == "w.exit.after_stop" {
+                    while ws.len() <= ku {
+                        ws.push(WState::default());
+                    }
+                    ws[ku].exited = true;
+                }
+                let w = {
+                    let mut g = ctl.0.lock().unwrap();
+                    g.released.insert(Tid::W(k));
+                    g.parked.get(&Tid::W(k)).map(|p| p.waker.clone())
+                };
+                if let Some(w) = w {
+                    w.wake();
+                }
+                last = Some(Tid::W(k));
+            }
+            Act::Fetch(i) => {
+                let iu = i as usize;
+                let o = v.outcomes[iu.min(v.outcomes.len() - 1)];
+                let (w, worker) = {
+                    let mut g = ctl.0.lock().unwrap();
+                    let worker = g.fetches[iu].worker as usize;
+                    let old = std::mem::replace(&mut g.fetches[iu].state, FState::Delivered(o));
+                    (if let FState::Waiting(w) = old { Some(w) } else { None }, worker)
+                };
+                while ws.len() <= worker && worker < 250 {
+                    ws.push(WState::default());
+                }
+                if worker < 250 {
+                    ws[worker].last_outcome = Some(o);
+                }
+                if let Some(w) = w {
+                    w.wake();
+                }
+                last = None;
+            }
+            Act::Advance => {
+                adv_left -= 1;
+                let d = Duration::from_secs(3 * 3600);
+                tokio::time::advance(d).await;
+                advanced += d;
+                last = None;
+            }
+        }
+        if want_trace {
+            settle(&ctl).await;
+            let g = ctl.0.lock().unwrap();
+            let to = match act {
+                Act::Step(t) => match (g.parked.get(&t), t) {
+                    (Some(p), _) => format!("-> {}", p.label),
+                    (None, Tid::H(i)) => match &hs[i as usize].result {
+                        Some(r) => format!("-> done {}", show_out(r, &fp_name)),
+                        None => "-> blocked (awaits notification)".to_string(),
+                    },
+                    (None, Tid::W(_)) => "-> real await (fetch/select) or finished".to_string(),
+                },
+                Act::Fetch(i) => format!("lookup #{i} completes with {}", out_name(v.outcomes[(i as usize).min(v.outcomes.len() - 1)])),
+                Act::Advance => "clock +3h".to_string(),
+            };
+            ex.trace.push(format!(
+                "{:3}: {:<3} {:<22} {:<40} [choice {} of {}{}] alive_tasks={}",
+                step,
+                act.name(),
+                from_label,
+                to,
+                choice,
+                acts.len(),
+                if choice != 0 && running_enabled { ", preemption" } else { "" },
+                metrics.num_alive_tasks()
+            ));
+        }
+    }
+
+    // ---- quiescence: oracles ----------------------------------------------------------------
+    let alive = metrics.num_alive_tasks();
+    let gone = weak.upgrade().is_none();
+    let last_labels = ctl.0.lock().unwrap().last_label.clone();
+    let mut parts: Vec<String> = vec![];
+    for (i, h) in hs.iter().enumerate() {
+        let tid = Tid::H(i as u8);
+        match &h.result {
+            None => {
+                let at = last_labels.get(&tid).copied().unwrap_or("start");
+                viol(
+                    &mut ex,
+                    format!("lost-wakeup:{:?}-stuck-after-{at}", h.kind).replace(['(', ')'], ""),
+                    format!("at quiescence (no runnable task, no lookup in flight) H{i} ({:?}) is still pending; last gate passed: {at}", h.kind),
+                );
+                parts.push(format!("H{i}=PENDING@{at}"));
+            }
+            Some(r) => {
+                parts.push(format!("H{i}={}", show_out(r, &fp_name)));
+                let delivered_ok = |fp: &DpPathFingerprint| {
+                    let g = ctl.0.lock().unwrap();
+                    fps.iter().position(|f| f == fp).is_some_and(|k| k < g.fetches.len() && matches!(g.fetches[k].state, FState::Done) && v.outcomes[k.min(v.outcomes.len() - 1)] == OUT_OK)
+                };
+                match r {
+                    HOut::Path(Ok(fp)) | HOut::Handle { path: Some(fp), .. } => {
+                        if !delivered_ok(fp) {
+                            viol(&mut ex, "path-not-from-a-completed-lookup".into(), format!("H{i} got {} which no completed successful lookup returned", fp_name(fp)));
+                        }
+                    }
+                    HOut::Polls(ps) => {
+                        for fp in ps.iter().flatten() {
+                            if !delivered_ok(fp) {
+                                viol(&mut ex, "path-not-from-a-completed-lookup".into(), format!("H{i} got {} which no completed successful lookup returned", fp_name(fp)));
+                            }
+                        }
+                        let demanded = h.poll_demand;
+                        for (k, p) in ps.iter().enumerate() {
+                            if demanded & (1 << k) != 0 && p.is_none() {
+                                viol(&mut ex, "cached-path-none-after-successful-lookup".into(), format!("H{i}: cached_path call #{k} returned None although the pair's lookup had finished successfully and its worker was running"));
+                            }
+                        }
+                    }
+                    _ => {}
+                }
+                let failed = matches!(r, HOut::Path(Err(_)) | HOut::Handle { path: None, .. });
+                if matches!(h.kind, Kind::Caller | Kind::HandleWaiter) {
+                    let shown = show_out(r, &fp_name);
+                    if let (Some((must_wait, fc0)), Some(pre)) = (h.wait_decision, h.final_pre) {
+                        if must_wait && pre.finish_count == fc0 && !pre.exited {
+                            viol(
+                                &mut ex,
+                                "released-while-lookup-pending".into(),
+                                format!("H{i} had to wait (lookup pending or never finished) but read the slot and returned {shown} before any lookup of its pair finished and before its worker exited"),
+                            );
+                        }
+                    }
+                    if let (true, Some(pre)) = (failed, h.final_pre) {
+                        if pre.init && !pre.ongoing && !pre.exited && pre.last_outcome == Some(OUT_OK) {
+                            viol(
+                                &mut ex,
+                                format!("error-after-successful-lookup:{}", shown.split('(').next().unwrap_or(&shown)),
+                                format!("H{i} returned {shown} although the last lookup of its pair had succeeded and was published as finished before the caller's final slot read (worker still running)"),
+                            );
+                        }
+                    }
+                }
+            }
+        }
+    }
+    let (started, fetch_calls, max_inflight) = {
+        let g = ctl.0.lock().unwrap();
+        (g.workers.len(), g.fetches.len(), g.max_inflight)
+    };
+    if !hs.iter().any(|h| h.result.is_none()) {
+        if !gone {
+            viol(&mut ex, "manager-alive-after-last-clone-dropped".into(), "every harness task finished (all clones dropped) but the manager's inner state is still referenced".into());
+        } else {
+            if alive != 0 {
+                viol(&mut ex, "worker-alive-after-manager-drop".into(), format!("{alive} tokio task(s) still alive at quiescence after the manager was dropped ({started} started)"));
+            }
+            for (k, h) in reg.borrow().iter().enumerate() {
+                let (init, ongoing) = h.flags();
+                if h.current_error().is_none() {
+                    viol(&mut ex, "handle-without-error-after-manager-drop".into(), format!("handle #{k}: current_error is None after the manager was dropped"));
+                }
+                if h.has_active() {
+                    viol(&mut ex, "handle-with-path-after-manager-drop".into(), format!("handle #{k} still offers an active path after the manager was dropped"));
+                }
+                if !init || ongoing {
+                    viol(&mut ex, "handle-flags-would-block-after-manager-drop".into(), format!("handle #{k}: initialized={init} ongoing={ongoing} after the manager was dropped (a late waiter would block forever)"));
+                }
+            }
+        }
+    }
+    let herrs: Vec<String> = reg.borrow().iter().map(|h| h.current_error().map(|e| err_class(&e)).unwrap_or_else(|| "-".into())).collect();
+    parts.push(format!("workers={started} lookups={fetch_calls} max_inflight={max_inflight} removals={removals} handle_errors=[{}]", herrs.join(",")));
+    if !gone {
+        parts.push("manager=ALIVE".into());
+    }
+    if alive != 0 {
+        parts.push(format!("alive_tasks={alive}"));
+    }
+    let panic_after = vpc::last_panic_location();
+    if panic_after != panic_before {
+        viol(&mut ex, format!("panic@{panic_after}"), "a task of the subject panicked".into());
+    }
+    ex.signature = parts.join(" ");
+    // tear down: drop whatever is left inside the runtime context
+    drop(hs);
+    drop(reg);
+    ex
+}
+
+fn show_out(r: &HOut, fp_name: &dyn Fn(&DpPathFingerprint) -> String) -> String {
+    match r {
+        HOut::Path(Ok(fp)) => fp_name(fp),
+        HOut::Path(Err(e)) => format!("err:{e}"),
+        HOut::Polls(v) => format!("polls[{}]", v.iter().map(|p| p.as_ref().map(|f| fp_name(f)).unwrap_or_else(|| "none".into())).collect::<Vec<_>>().join(",")),
+        HOut::Handle { path, err } => format!("handle(path={},err={})", path.as_ref().map(|f| fp_name(f)).unwrap_or_else(|| "none".into()), err.clone().unwrap_or_else(|| "-".into())),
+        HOut::Unit => "done".into(),
+    }
+}
+
+// =============================================================================================
+// Exploration (one shard)
+// =============================================================================================
+
+struct Node {
+    prefix: Vec<(u8, u8)>,
+    /// number of deviations from the canonical continuation (depth in the exploration tree)
+    depth: u8,
+}
+
+#[derive(Default, Clone)]
+struct LevelStat {
+    schedules: u64,
+    steps: u64,
+    points: u64,
+    completed: bool,
+}
+
+struct Witness {
+    class: String,
+    what: String,
+    variant: String,
+    prefix: Vec<(u8, u8)>,
+    preemptions: u32,
+    count: u64,
+}
+
+/// Tree nodes above this depth are executed by every shard (to find their children) and counted by
+/// their owner only; a node at this depth and everything below it belongs to one shard.
+const SPLIT_DEPTH: u8 = 2;
+
+fn owner(name: &str, prefix: &[(u8, u8)], nshards: u64) -> u64 {
+    let mut b = name.as_bytes().to_vec();
+    for (c, n) in prefix {
+        b.push(*c);
+        b.push(*n);
+    }
+    vpc::fnv64(&b) % nshards
+}
+
+/// Iterative preemption bounding: for k = 0, 1, 2, .. and every driver variant whose bound is at
+/// least k, a depth-first walk over ALL schedules with at most k preemptions; the schedules with
+/// exactly k preemptions are the new ones of iteration k and are the ones counted and judged.
+fn explore_shard(vars: &[Variant], shard: u64, nshards: u64, deadline: Instant) -> Value {
+    let t0 = Instant::now();
+    let mut witnesses: BTreeMap<String, Witness> = BTreeMap::new();
+    let mut selfchecks = 0u64;
+    let mut total = 0u64;
+    let mut levels: Vec<Vec<LevelStat>> = vars.iter().map(|v| vec![LevelStat::default(); v.bound as usize + 1]).collect();
+    let mut sigs: Vec<BTreeMap<String, u64>> = vars.iter().map(|_| BTreeMap::new()).collect();
+    let max_bound = vars.iter().map(|v| v.bound).max().unwrap_or(0);
+    let mut out_of_time = false;
+    'outer: for k in 0..=max_bound {
+        for (vi, v) in vars.iter().enumerate() {
+            if v.bound < k {
+                continue;
+            }
+            let mut stack = vec![Node { prefix: vec![], depth: 0 }];
+            while let Some(node) = stack.pop() {
+                if Instant::now() > deadline {
+                    out_of_time = true;
+                    break 'outer;
+                }
+                let ex = execute(v, &node.prefix, false);
+                let mine = node.depth >= SPLIT_DEPTH || owner(&v.name, &node.prefix, nshards) == shard;
+                if mine && ex.preemptions == k as u32 {
+                    total += 1;
+                    let st = &mut levels[vi][k as usize];
+                    st.schedules += 1;
+                    st.steps += ex.steps;
+                    st.points += (ex.points.len() - node.prefix.len()) as u64;
+                    *sigs[vi].entry(ex.signature.clone()).or_default() += 1;
+                    for (class, what) in &ex.violations {
+                        let full: Vec<(u8, u8)> = ex.points.iter().map(|p| (p.choice, p.n)).collect();
+                        let w = witnesses.entry(class.clone()).or_insert_with(|| Witness { class: class.clone(), what: what.clone(), variant: v.name.clone(), prefix: full.clone(), preemptions: ex.preemptions, count: 0 });
+                        w.count += 1;
+                        if (ex.preemptions, full.len(), &full) < (w.preemptions, w.prefix.len(), &w.prefix) {
+                            w.what = what.clone();
+                            w.variant = v.name.clone();
+                            w.prefix = full;
+                            w.preemptions = ex.preemptions;
+                        }
+                    }
+                    // determinism self-check: re-execute every 499th schedule, compare everything
+                    if total % 499 == 1 {
+                        selfchecks += 1;
+                        let again = execute(v, &node.prefix, false);
+                        if again.points != ex.points || again.signature != ex.signature || again.violations != ex.violations {
+                            vpc::machinery_failure(&format!("non-deterministic replay in {} prefix {:?}: '{}' vs '{}'", v.name, node.prefix, ex.signature, again.signature));
+                        }
+                    }
+                }
+                // children: deviate at one later point
+                let mut used = 0u8;
+                for (i, p) in ex.points.iter().enumerate() {
+                    if i >= node.prefix.len() && p.n > 1 {
+                        let cost = used + u8::from(p.running_enabled);
+                        if cost <= k {
+                            for alt in 1..p.n {
+                                let mut pre: Vec<(u8, u8)> = ex.points[..i].iter().map(|q| (q.choice, q.n)).collect();
+                                pre.push((alt, p.n));
+                                let depth = node.depth + 1;
+                                if depth == SPLIT_DEPTH && owner(&v.name, &pre, nshards) != shard {
+                                    continue;
+                                }
+                                stack.push(Node { prefix: pre, depth });
+                            }
+                        }
+                    }
+                    if p.choice != 0 && p.running_enabled {
+                        used += 1;
+                    }
+                }
+            }
+            levels[vi][k as usize].completed = true;
+        }
+    }
+    let mut out_vars = serde_json::Map::new();
+    for (vi, v) in vars.iter().enumerate() {
+        out_vars.insert(
+            v.name.clone(),
+            json!({
+                "levels": levels[vi].iter().map(|l| json!({"schedules": l.schedules, "steps": l.steps, "points": l.points, "completed": l.completed})).collect::<Vec<_>>(),
+                "signatures": sigs[vi],
+            }),
+        );
+    }
+    json!({
+        "shard": shard,
+        "variants": out_vars,
+        "selfchecks": selfchecks,
+        "out_of_time": out_of_time,
+        "wall_s": t0.elapsed().as_secs_f64(),
+        "violations": witnesses.values().map(|w| json!({
+            "class": w.class, "what": w.what, "variant": w.variant, "preemptions": w.preemptions, "count": w.count,
+            "prefix": w.prefix.iter().map(|(c, n)| json!([c, n])).collect::<Vec<_>>(),
+        })).collect::<Vec<_>>(),
+    })
+}
+
+// =============================================================================================
+// Entry points
+// =============================================================================================
+
+fn parse_prefix(v: &Value) -> Vec<(u8, u8)> {
+    v.as_array()
+        .unwrap_or_else(|| vpc::machinery_failure("witness.prefix must be an array"))
+        .iter()
+        .map(|e| (e[0].as_u64().unwrap_or(255) as u8, e[1].as_u64().unwrap_or(255) as u8))
+        .collect()
+}
+
+fn find_variant(name: &str) -> Variant {
+    variants(vpc::Tier::Thorough)
+        .into_iter()
+        .chain(variants(vpc::Tier::Quick))
+        .find(|v| v.name == name)
+        .unwrap_or_else(|| vpc::machinery_failure(&format!("unknown driver variant {name}")))
+}
+
+fn replay(path: &std::path::Path) -> ! {
+    let r = vpc::read_replay(path);
+    let w = &r["witness"];
+    let v = find_variant(w["variant"].as_str().unwrap_or(""));
+    let prefix = parse_prefix(&w["prefix"]);
+    println!("replay of {} ({} choices), driver variant {}: tasks {:?}, lookup outcomes {:?}", path.display(), prefix.len(), v.name, v.tasks, v.outcomes.iter().map(|o| out_name(*o)).collect::<Vec<_>>());
+    let a = execute(&v, &prefix, true);
+    let b = execute(&v, &prefix, true);
+    for l in &a.trace {
+        println!("{l}");
+    }
+    println!("quiescent after {} steps, {} preemption(s): {}", a.steps, a.preemptions, a.signature);
+    if a.trace != b.trace || a.signature != b.signature || a.violations != b.violations {
+        vpc::machinery_failure("the two replays of this schedule differ");
+    }
+    println!("second replay: identical trace and observations");
+    for (c, what) in &a.violations {
+        println!("VIOLATION-REPRODUCED [{c}] {what}");
+    }
+    std::process::exit(if a.violations.is_empty() { 0 } else { 1 })
+}
+
 pub fn run(args: &vpc::Args) -> ! {
-    vpc::machinery_failure(&format!("property {} not implemented yet", args.prop))
+    vpc::quiet_panics();
+    if let Some(p) = &args.replay {
+        replay(p);
+    }
+    let get = |k: &str| args.extra.iter().position(|a| a == k).and_then(|i| args.extra.get(i + 1)).cloned();
+    let mut vars = variants(args.tier);
+    if let Some(only) = get("--only") {
+        vars.retain(|v| v.name.starts_with(&only) || v.driver == only);
+    }
+    if let Some(b) = get("--bound").and_then(|b| b.parse::<u8>().ok()) {
+        for v in &mut vars {
+            v.bound = b;
+        }
+    }
+    let budget_s: u64 = get("--budget").and_then(|b| b.parse().ok()).unwrap_or(args.tier.pick(48, 15 * 60));
+
+    // ---- child: one shard ------------------------------------------------------------------
+    if let Some(s) = get("--shard") {
+        let (i, n) = s.split_once('/').unwrap_or_else(|| vpc::machinery_failure("--shard i/n"));
+        let (i, n): (u64, u64) = (i.parse().unwrap_or(0), n.parse().unwrap_or(1));
+        let res = explore_shard(&vars, i, n, Instant::now() + Duration::from_secs(budget_s));
+        println!("RESULT {}", serde_json::to_string(&res).unwrap());
+        std::process::exit(0);
+    }
+
+    // ---- parent ------------------------------------------------------------------------------
+    let run = vpc::Run::new(args);
+    let nshards = get("--shards").and_then(|s| s.parse::<usize>().ok()).unwrap_or_else(|| std::thread::available_parallelism().map(|n| n.get()).unwrap_or(4)).max(1);
+    let exe = std::env::current_exe().unwrap_or_else(|e| vpc::machinery_failure(&format!("current_exe: {e}")));
+    let mut children = vec![];
+    for i in 0..nshards {
+        let mut c = std::process::Command::new(&exe);
+        c.arg("C20").arg("--tier").arg(args.tier.name()).arg("--shard").arg(format!("{i}/{nshards}")).arg("--budget").arg(budget_s.to_string());
+        for k in ["--only", "--bound"] {
+            if let Some(x) = get(k) {
+                c.arg(k).arg(x);
+            }
+        }
+        c.stdout(std::process::Stdio::piped()).stderr(std::process::Stdio::inherit());
+        children.push(c.spawn().unwrap_or_else(|e| vpc::machinery_failure(&format!("cannot start shard {i}: {e}"))));
+    }
+    let mut results: Vec<Value> = vec![];
+    for (i, c) in children.into_iter().enumerate() {
+        let out = c.wait_with_output().unwrap_or_else(|e| vpc::machinery_failure(&format!("shard {i}: {e}")));
+        let text = String::from_utf8_lossy(&out.stdout);
+        if !out.status.success() {
+            print!("{text}");
+            vpc::machinery_failure(&format!("shard {i} exited with {:?}", out.status.code()));
+        }
+        let line = text.lines().find_map(|l| l.strip_prefix("RESULT ")).unwrap_or_else(|| vpc::machinery_failure(&format!("shard {i} printed no RESULT")));
+        results.push(serde_json::from_str(line).unwrap_or_else(|e| vpc::machinery_failure(&format!("shard {i} result: {e}"))));
+    }
+
+    // ---- merge -----------------------------------------------------------------------------
+    let mut per_variant = serde_json::Map::new();
+    let mut per_driver_classes: BTreeMap<String, BTreeSet<String>> = BTreeMap::new();
+    let (mut schedules, mut steps, mut points, mut selfchecks) = (0u64, 0u64, 0u64, 0u64);
+    let mut all_complete = true;
+    let mut by_preemptions: BTreeMap<usize, u64> = BTreeMap::new();
+    for v in &vars {
+        let mut levels = vec![LevelStat { completed: true, ..Default::default() }; v.bound as usize + 1];
+        let mut sigs: BTreeMap<String, u64> = BTreeMap::new();
+        for r in &results {
+            let rv = &r["variants"][&v.name];
+            for (l, st) in levels.iter_mut().enumerate() {
+                let x = &rv["levels"][l];
+                st.schedules += x["schedules"].as_u64().unwrap_or(0);
+                st.steps += x["steps"].as_u64().unwrap_or(0);
+                st.points += x["points"].as_u64().unwrap_or(0);
+                st.completed &= x["completed"].as_bool().unwrap_or(false);
+            }
+            if let Some(m) = rv["signatures"].as_object() {
+                for (k, n) in m {
+                    *sigs.entry(k.clone()).or_default() += n.as_u64().unwrap_or(0);
+                }
+            }
+        }
+        let completed_bound = levels.iter().take_while(|l| l.completed).count() as i64 - 1;
+        if completed_bound < v.bound as i64 {
+            all_complete = false;
+        }
+        for (l, st) in levels.iter().enumerate() {
+            schedules += st.schedules;
+            steps += st.steps;
+            points += st.points;
+            *by_preemptions.entry(l).or_default() += st.schedules;
+        }
+        for (s, n) in &sigs {
+            run.outcome_n(&format!("{}: {s}", v.name), *n);
+            per_driver_classes.entry(v.driver.to_string()).or_default().insert(format!("{}|{s}", v.outcomes.iter().map(|o| out_name(*o)).collect::<Vec<_>>().join("+")));
+        }
+        per_variant.insert(
+            v.name.clone(),
+            json!({
+                "tasks": v.tasks.iter().map(|k| format!("{k:?}")).collect::<Vec<_>>(),
+                "lookup_outcomes": v.outcomes.iter().map(|o| out_name(*o)).collect::<Vec<_>>(),
+                "preemption_bound_requested": v.bound,
+                "preemption_bound_completed": completed_bound,
+                "schedules_by_preemptions": levels.iter().map(|l| l.schedules).collect::<Vec<_>>(),
+                "distinct_outcome_classes": sigs.len(),
+            }),
+        );
+    }
+    for r in &results {
+        selfchecks += r["selfchecks"].as_u64().unwrap_or(0);
+    }
+
+    // ---- violations: minimal witness per class, replayed twice -------------------------------
+    let mut best: BTreeMap<String, (u32, usize, Value, u64)> = BTreeMap::new();
+    for r in &results {
+        for w in r["violations"].as_array().cloned().unwrap_or_default() {
+            let class = w["class"].as_str().unwrap_or("?").to_string();
+            let key = (w["preemptions"].as_u64().unwrap_or(0) as u32, w["prefix"].as_array().map(|a| a.len()).unwrap_or(0));
+            let cnt = w["count"].as_u64().unwrap_or(1);
+            match best.get_mut(&class) {
+                Some(b) => {
+                    b.3 += cnt;
+                    if key < (b.0, b.1) || (key == (b.0, b.1) && w["prefix"].to_string() < b.2["prefix"].to_string()) {
+                        b.0 = key.0;
+                        b.1 = key.1;
+                        b.2 = w;
+                    }
+                }
+                None => {
+                    best.insert(class, (key.0, key.1, w, cnt));
+                }
+            }
+        }
+    }
+    for (class, (pre, _len, w, cnt)) in &best {
+        let v = find_variant(w["variant"].as_str().unwrap_or(""));
+        let prefix = parse_prefix(&w["prefix"]);
+        let a = execute(&v, &prefix, true);
+        let b = execute(&v, &prefix, true);
+        if a.trace != b.trace || a.signature != b.signature || a.violations != b.violations {
+            vpc::machinery_failure(&format!("witness of {class} does not replay deterministically"));
+        }
+        let Some((_, what)) = a.violations.iter().find(|(c, _)| c == class) else {
+            vpc::machinery_failure(&format!("witness of {class} does not reproduce in the parent process"));
+        };
+        run.violation(
+            class,
+            &format!("{what} [{}; {pre} preemption(s); {cnt} violating schedule(s) of this class]", v.name),
+            json!({"variant": v.name, "prefix": w["prefix"], "preemptions": pre, "quiescent_state": a.signature, "trace": a.trace}),
+        );
+    }
+
+    // ---- determinism demonstration on a fixed schedule --------------------------------------
+    let demo = {
+        let v = &vars[0];
+        let root = execute(v, &[], false);
+        // first schedule that deviates at the third choice point with an alternative
+        let mut pre: Vec<(u8, u8)> = vec![];
+        for p in &root.points {
+            if p.n > 1 && pre.len() >= 2 {
+                pre.push((1, p.n));
+                break;
+            }
+            pre.push((p.choice, p.n));
+        }
+        let a = execute(v, &pre, true);
+        let b = execute(v, &pre, true);
+        if a.trace != b.trace || a.signature != b.signature || a.points != b.points {
+            vpc::machinery_failure("determinism demonstration failed: two replays of one schedule differ");
+        }
+        run.sample(3, || json!({"variant": v.name, "prefix": pre.iter().map(|(c, n)| json!([c, n])).collect::<Vec<_>>(), "trace": a.trace, "quiescent_state": a.signature}));
+        json!({"variant": v.name, "steps": a.steps, "replayed_twice_identical": true})
+    };
+
+    let classes_json: BTreeMap<String, usize> = per_driver_classes.iter().map(|(k, v)| (k.clone(), v.len())).collect();
+    let max_classes = classes_json.values().copied().max().unwrap_or(0);
+    if max_classes <= 1 {
+        vpc::machinery_failure("every schedule of every driver produced the same outcome: nothing collided, the exploration is vacuous");
+    }
+    let bound_text = vars
+        .iter()
+        .map(|v| format!("{} <= {}", v.name, per_variant[&v.name]["preemption_bound_completed"]))
+        .collect::<Vec<_>>()
+        .join(", ");
+    run.finish(
+        "model_checking",
+        json!({
+            "states": points,
+            "states_are": "schedule points visited = distinct schedule prefixes at which the set of enabled actions was computed (nodes of the unfolded execution tree); distinct quiescent outcome signatures are listed per driver",
+            "transitions": steps,
+            "traces_validated_against_impl": schedules,
+            "exhaustive": all_complete,
+            "bound": format!("all schedules (choices: task to step at yield-point granularity, lookup completion, timer advance, stop, drop) with at most k preemptions, each run to quiescence, completed per driver variant: {bound_text}"),
+            "schedules_by_preemption_count": by_preemptions,
+            "distinct_outcome_classes_per_driver": classes_json,
+            "drivers": per_variant,
+            "determinism": {"periodic_re_executions_identical": selfchecks, "demonstration": demo},
+            "shards": nshards,
+            "shard_wall_s": results.iter().map(|r| (r["wall_s"].as_f64().unwrap_or(0.0) * 10.0).round() / 10.0).collect::<Vec<_>>(),
+        }),
+        &[
+            "scheduling granularity = awaits + the verif::yield_point gates placed between the statements that touch shared state (outside mutex scopes); interleavings inside one poll on a multi-threaded runtime (breaking one critical section in two, entry_sync vs check-then-insert) are not reached",
+            "tokio's runtime, Notify, CancellationToken, arc_swap and scc::HashIndex are trusted; scc reclaims removed entries lazily, within one execution that never happens, so PathSetTask::drop after stop_managing_paths runs only when the manager is dropped",
+            "wall clock (SystemTime::now inside the worker) does not advance measurably during one execution; idle expiry is modelled with max_idle_period = 0, the retry after a failed lookup with a zero backoff (hook)",
+            "one (src,dst) pair, at most two concurrent path()/cached_path callers plus stop/drop tasks per driver",
+        ],
+    )
 }
